@@ -1,0 +1,26 @@
+//go:build verif
+
+package ecs
+
+// Contracts for entity.go: binary codec against the big-endian reading of the byte string.
+
+//@ spec func be32(b []byte, off int) uint32 :=
+//@   uint32(b[off])<<24 | uint32(b[off+1])<<16 | uint32(b[off+2])<<8 | uint32(b[off+3])
+
+//@ func (*Entity).MarshalBinary
+//@   serves C17
+//@   ensures ok: result1 == nil && len(result0) == 8
+//@   ensures bytes: be32(result0, 0) == uint32(e.id) && be32(result0, 4) == e.gen
+//@   ensures unchanged: *e == old(*e)
+
+//@ func (*Entity).UnmarshalBinary
+//@   serves C17
+//@   ensures rejects: (result != nil) == (len(data) != 8)
+//@   ensures decodes: len(data) == 8 ==> uint32(e.id) == be32(data, 0) && e.gen == be32(data, 4)
+//@   ensures untouched: len(data) != 8 ==> *e == old(*e)
+
+//@ func (*Entity).AppendBinary
+//@   serves C17
+//@   ensures ok: result1 == nil && len(result0) == len(buf) + 8
+//@   ensures bytes: be32(result0, len(buf)) == uint32(e.id) && be32(result0, len(buf)+4) == e.gen
+//@   ensures prefix: forall k int :: 0 <= k && k < len(buf) ==> result0[k] == old(buf[k])
